@@ -515,6 +515,15 @@ DIRECTED = [
      {'a.xml': ISAR % ('<struct name="S"><member name="x10" type="u8"/><member name="a" type="u8"><dimension size="0x10"/></member></struct>'
                        '<union name="U"><member name="x1" type="u8" discriminatorValue="0x1"/><member name="b" type="u16" discriminatorValue="0x2"/></union>')},
      'a.xml', 'usable'),
+    ('isar: member named like a constant whose name holds 0x10, used as a size (seeded C12-r8)', '--isar',
+     {'a.xml': ISAR % ('<constant name="LEN_0x10" value="16"/><struct name="Frame"><member name="LEN_0x10" type="u8"/>'
+                       '<member name="data" type="u8"><dimension size="LEN_0x10"/></member></struct>')}, 'a.xml', 'reject'),
+    ('isar: union arm named like a constant whose name holds 0x7, used as a discriminator (seeded C12-r8)', '--isar',
+     {'a.xml': ISAR % ('<constant name="ID_0x7" value="7"/><union name="U"><member name="a" type="u8" discriminatorValue="ID_0x7"/>'
+                       '<member name="ID_0x7" type="u16" discriminatorValue="8"/></union>')}, 'a.xml', 'reject'),
+    ('isar: constant MASK0XFF used as a size beside a member of another name', '--isar',
+     {'a.xml': ISAR % ('<constant name="MASK0XFF" value="3"/><struct name="S"><member name="XFF" type="u8"/>'
+                       '<member name="data" type="u8"><dimension size="MASK0XFF"/></member></struct>')}, 'a.xml', 'usable'),
     ('isar: union arm with a dimension (D201)', '--isar',
      {'a.xml': ISAR % '<union name="U"><member name="a" type="u8" discriminatorValue="1"><dimension size="8"/></member><member name="b" type="u16" discriminatorValue="2"/></union>'},
      'a.xml', 'reject'),
